@@ -105,6 +105,24 @@ Theorem C16_apply_keeps_text : forall ceq b st icp count,
 Proof. exact apply_search_inv. Qed.
 Print Assumptions C16_apply_keeps_text.
 
+(* get_search_position (used by Vi operators: dn, yn, cN): the cursor of the
+   landing position only when the landing line is the current one; a match in
+   another working line, or no match, answers the current cursor (fix commit
+   51c160f).  Hence always a valid cursor of the current text, and whenever it
+   differs from the current cursor the needle occurs there. *)
+Theorem C16_get_search_position : forall ceq b st icp count,
+  Inv b ->
+  get_search_position ceq b st icp count =
+  match search ceq b st icp count with
+  | SFound w c => if w =? wi b then c else cur b
+  | SNone => cur b
+  end /\
+  0 <= get_search_position ceq b st icp count <= len (entry (wl b) (wi b)) /\
+  (get_search_position ceq b st icp count <> cur b ->
+   occurs ceq (sic st) (stext st) (entry (wl b) (wi b)) (get_search_position ceq b st icp count)).
+Proof. exact get_search_position_spec. Qed.
+Print Assumptions C16_get_search_position.
+
 (* A repeat count below 1 (Meta-minus / Meta-0 prefix): no search is made -
    nothing is found, apply_search leaves the buffer as it is,
    get_search_position answers the current cursor.  (Before the fix: commit
